@@ -207,25 +207,36 @@ theorem C08_add_period_nonvacuous :
       = ⟨.multi (.tag "em".toList), [(.ch 'O', [.tag "em".toList]), (.ch 'k', [.tag "em".toList]),
           (.ch '.', [.tag "em".toList])]⟩ := by decide +kernel
 
-/-- **split** at a one-character separator `c` (any `keep_empty_parts`): the pieces are the list
-split of the string of pairs at the occurrences of `c` that are not under `Protected` (empty
-pieces dropped unless kept), each of the receiver's class, each in normal form; a `Symbol` and a
-`Protected` are never split.  `c.join(text.split(c))` denotes the text with the markup of the
+/-- **split.** (1) At a one-character separator `c` (any `keep_empty_parts`): the pieces are the
+list split of the string of pairs at the occurrences of `c` that are not under `Protected` (empty
+pieces dropped unless kept).  (2) `split()` – white space, empty pieces not kept, Python's
+`str.split()` –: the non-empty pieces of the list split at the unprotected white-space
+characters, however the white space is distributed over parts and markup.  In both cases every
+piece has the receiver's class and is in normal form (for any separator); a `Symbol` and a
+`Protected` are never split.  (3) `c.join(text.split(c))` denotes the text with the markup of the
 separators removed – in particular it has the same characters. -/
-theorem C08_split (c : Char) (t : RT) (keep : Option Bool) :
-    (split (.lit c []) t keep).map abs = Abs.split (.lit c []) (keepDefault (.lit c []) keep) (abs t) ∧
-    (Normal t = true → ∀ r ∈ split (.lit c []) t keep, Normal r = true) ∧
-    (top t ≠ .symbol ∧ top t ≠ .multi .prot →
+theorem C08_split (t : RT) (keep : Option Bool) :
+    (∀ c, (split (.lit c []) t keep).map abs
+        = Abs.split (.lit c []) (keepDefault (.lit c []) keep) (abs t)) ∧
+    (keepDefault .ws keep = false → (split .ws t keep).map abs = Abs.split .ws false (abs t)) ∧
+    (∀ sep, (∀ r ∈ split sep t keep, top r = top t) ∧
+      (Normal t = true → ∀ r ∈ split sep t keep, Normal r = true)) ∧
+    (∀ c, top t ≠ .symbol ∧ top t ≠ .multi .prot →
       sem [] (join (.str [c]) (split (.lit c []) t none))
         = (sem [] t).map fun y => if Flat.isSep (.lit c []) y then (.ch c, []) else y) := by
-  refine ⟨abs_split_lit c t keep, fun h => normal_split t h _ keep, ?_⟩
-  intro ht
+  refine ⟨fun c => abs_split_lit c t keep, abs_split_ws t keep,
+    fun sep => ⟨top_split t sep keep, fun h => normal_split t h sep keep⟩, ?_⟩
+  intro c ht
   rw [sem_join, sem_split_lit c t none [] rfl ht]
   simp only [keepDefault, keepF, Bool.or_true, sem, List.map_cons, List.map_nil]
   rw [List.filter_eq_self.2 (fun _ _ => rfl)]
   exact joinWith_splitOnP _ _ _
 
 theorem C08_split_nonvacuous :
+    (split .ws (build (.node .text [.str "a ".toList, .node (.tag "em".toList) [.str " b".toList],
+        .node .prot [.str " c".toList]])) none).map abs
+      = [⟨.multi .text, [(.ch 'a', [])]⟩,
+         ⟨.multi .text, [(.ch 'b', [.tag "em".toList]), (.ch ' ', [.prot]), (.ch 'c', [.prot])]⟩] ∧
     (split (.lit ',' []) (build (.node .text [.str "a,".toList, .node (.tag "em".toList) [.str ",b".toList],
         .node .prot [.str "c,d".toList]])) none).map abs
       = [⟨.multi .text, [(.ch 'a', [])]⟩, ⟨.multi .text, []⟩,
@@ -249,6 +260,20 @@ theorem C08_prefix_suffix_contains_nonvacuous :
     contains "at".toList (build (.node .text [.node (.tag "em".toList) [.str "Long".toList], .str "cat".toList])) = true := by
   decide +kernel
 
+/-- **Limit of the property as stated (documented behaviour of the code).**  Matching is part-wise:
+a multi-character separator, prefix, suffix or substring that straddles a markup boundary is not
+found, although the characters of the text contain it – `Text('a,', Tag('em', ' b')).split(', ')`
+is one piece, `'ab' in Text(Tag('em', 'a'), 'b')` is false.  (For `in` / `startswith` / `endswith`
+the doc-strings and the test-suite pin this; `split` inherits it.)  This is why `C08_split` is
+stated for one-character separators and white space, and `C08_prefix_suffix_contains` as soundness. -/
+theorem C08_partwise_neg :
+    (split (.lit ',' [' ']) (build (.node .text [.str "a,".toList, .node (.tag "em".toList) [.str " b".toList]])) none).map toStr
+      = ["a, b".toList] ∧
+    strSplit (.lit ',' [' ']) "a, b".toList = ["a".toList, "b".toList] ∧
+    contains "ab".toList (build (.node .text [.node (.tag "em".toList) [.str "a".toList], .str "b".toList])) = false ∧
+    isInfix "ab".toList (toStr (build (.node .text [.node (.tag "em".toList) [.str "a".toList], .str "b".toList]))) = true := by
+  decide +kernel
+
 /-- **isalpha.** True iff the text is non-empty and every pair is an alphabetic character
 (a symbol never is). -/
 theorem C08_isalpha (t : RT) (h : Normal t = true) (ctx : List Markup) :
@@ -267,8 +292,8 @@ theorem C08_render (t : RT) :
 
 /-- **Histories.** Any finite sequence of operations (`+` on either side, `append`, `join`,
 slices, indices – including the ones that raise –, `upper`, `lower`, `capfirst`, `capitalize`,
-`add_period`, `split` at a one-character separator followed by the choice of a piece), applied on
-top of one another to an object, yields step by step exactly the abstract values obtained by
+`add_period`, `split()` at white space or at a one-character separator followed by the choice
+of a piece), applied on top of one another to an object, yields step by step exactly the abstract values obtained by
 running the corresponding list operations on the string of pairs. -/
 theorem C08_history (t : RT) (ht : Normal t = true) (ops : List Op)
     (hops : ∀ op ∈ ops, op.OperandsNormal = true ∧ op.Covered = true) :
